@@ -126,7 +126,16 @@ def run(ctx):
                 pass
             else:
                 ctx.bad("C12-R2", "odd-return", "unexpected return %s" % rv_str(rv), ex.where(bb))
-        ctx.check(n_some == 1, "C12-R2", "some-count", "one `Some` return (%d)" % n_some, ex.where())
+        # equivalent idiom: `parse::<u32>().ok()` as the function's value
+        for c in ex.calls:
+            if c.dst["l"] == 0 and not c.dst["p"]:
+                root = pure_chain_root(ex, c.args[0]) if c.args else None
+                if c.matches(r"Result::<.*>::ok$") and root and root[0] == "call" and root[1].matches(r"::parse$") and "parse::<u32>" in root[1].full:
+                    n_some += 1
+                    ctx.ok("C12-R2", "the function's value is `parse::<u32>(..).ok()` (Ok(v) → Some(v), Err → None)", c.where())
+                else:
+                    ctx.bad("C12-R2", "odd-return-call|%s" % c.name.split("::")[-1], "the function's value is produced by `%s`, not by the parse" % c.name, c.where())
+        ctx.check(n_some == 1, "C12-R2", "some-count", "one place produces `Some` (%d)" % n_some, ex.where())
         # parse Err -> None
         for pc in parses:
             for bb in sorted(ex.reachable_blocks()):
